@@ -300,6 +300,8 @@ m("C16-r11a", "C16", "libwallet/src/api_impl/owner.rs", "\tupdate_outputs(wallet
 m("C16-r11b", "C16", "libwallet/src/api_impl/owner.rs", "\t\ttrue => w.acct_path_iter().map(|m| m.path).collect(),", "\t\ttrue => w.acct_path_iter().map(|m| m.path).take(1).collect(),", "C16.R11")
 m("C06-r5sum", "C06", "libwallet/src/internal/updater.rs", "\t\t\t\t\t\tawaiting_finalization_total =\n\t\t\t\t\t\t\tawaiting_finalization_total.saturating_add(out.value);", "\t\t\t\t\t\tawaiting_finalization_total += out.value;", "C06.R5")
 
+m("C13-r7", "C13", "controller/src/controller.rs", "\t\t\t\t\tlet res = OwnerV3Helpers::encrypt_response(\n\t\t\t\t\t\treq_key.clone(),", "\t\t\t\t\tlet res = OwnerV3Helpers::encrypt_response(\n\t\t\t\t\t\tkey.clone(),", "C13.R7")
+
 
 def for_property(prop):
     return [x for x in M if x["property"] == prop]
